@@ -127,6 +127,9 @@ def condense_dataset(
                   meta_prefix="")
 
     h5_cond.require_group("logs")
+    # The "events" group does not exist yet if nothing has been copied
+    # with `rtdc_copy` (e.g. for .tdms data).
+    h5_cond.require_group("events")
 
     # scalar features
     feats_sc = ds.features_scalar
